@@ -141,7 +141,7 @@ func runLifeProfile(l *Life, profile string, n, steps int) {
 			l.BuildStress(6, steps, fmt.Sprintf("%s-%d", profile, i))
 			continue
 		case "engfail":
-			l.EngineFailures([]string{"flat", "ivf", "big"}[i%3], fmt.Sprintf("%s-%d", profile, i))
+			l.EngineFailures([]string{"flat", "ivf", "big", "chain"}[i%4], fmt.Sprintf("%s-%d", profile, i))
 			continue
 		case "vec":
 			p = VecProfile()
